@@ -1,7 +1,7 @@
 (** Extraction of the executable model (ExtrOcamlBasic only; nat stays the Peano datatype). *)
 Require Extraction.
 Require Import ExtrOcamlBasic.
-From Cursors Require Import Model.
+From Cursors Require Import Model Spec.
 Extraction Language OCaml.
 Extraction "model.ml" apply_edit fwd_edit apply_chain fwd_chain valid_editb valid_cursorb inb_cursorb
-  move_preb block_labels node_label labels proc_forward.
+  move_preb block_labels node_label labels proc_forward edit_okb.
